@@ -25,7 +25,7 @@ type C02ConcCase struct {
 	LayerSeed  uint64      `json:"layer_seed"`
 	Workers    int         `json:"workers"`
 	Pad        int         `json:"pad,omitempty"` // scalar fields in front of the drawn ones (a wide, mostly flat element type)
-	Stagger    []int       `json:"stagger"` // spin iterations before each worker starts
+	Stagger    []int       `json:"stagger"`       // spin iterations before each worker starts
 }
 
 type ElemField struct {
